@@ -208,8 +208,8 @@ def plan(tier, seed):
                 fam = gen.FAMILIES[i % 5] if form == 'faces' and i % 2 == 0 else None
                 cases.append({'cls': cls, 'form': form, 'seed': [seed, 10, idx, i], 'family': fam,
                               'nmax': 6 if tier == 'quick' else 12})
-                if form == 'faces' and i % 3 == 0:     # tiny / huge length units and almost-uniform spacing
-                    cases.append({'cls': cls, 'form': form, 'seed': [seed, 10, idx, 100000 + i], 'family': None, 'geo': ['nano', 'jitter', 'mega', 'int'][(i // 3) % 4],
+                if form == 'faces' and i % 3 != 1:     # tiny / huge length units and almost-uniform spacing
+                    cases.append({'cls': cls, 'form': form, 'seed': [seed, 10, idx, 100000 + i], 'family': None, 'geo': ['nano', 'jitter', 'mega', 'int', 'offset', 'negative', 'wild'][(i - i // 3) % 7],
                                   'nmax': 6 if tier == 'quick' else 12})
             idx += 1
             step = 100 if NDIM[cls] < 3 else 50
@@ -224,7 +224,7 @@ def floors(agg, tier):
     for st in ('plain', 'int-L', 'numpy-scalars'):
         if agg['cov'].get('NL_argument_style:' + st, 0) < 30:
             out.append('NL_argument_style:%s < 30' % st)
-    for geo in ('nano', 'jitter', 'mega', 'int'):
+    for geo in ('nano', 'jitter', 'mega', 'int', 'offset', 'negative', 'wild'):
         if agg['cov'].get('geo:' + geo, 0) < 20:
             out.append('geo:%s < 20' % geo)
     for cls in CLASSES:
